@@ -64,6 +64,10 @@ def cmd_property(prop, a):
             continue
         res["seed"] = "corpus:" + os.path.basename(path)
         res["plan"] = rp["plan"]
+        if rp["plan"].get("finding_key"):
+            # a pinned witness of a recorded finding: its violations carry the finding's key (the plan IS the specific input)
+            for v in res["violations"]:
+                v["key"] = rp["plan"]["finding_key"]
         agg.add(rp["family"], res)
     if agg.errors:
         for fam_name, seed, err in agg.errors[:3]:
